@@ -277,7 +277,7 @@ fn get_utxos_internal(state: &State, address: &u64, min_confirmations: u32, page
 //@|         + variable_fee(ins, global_state().fees.get_utxos_cycles_per_ten_instructions, global_state().fees.get_utxos_base, global_state().fees.get_utxos_maximum),
 //@|     // never more than the maximum
 //@|     final(vp_rt).accepted <= old(vp_rt).accepted + global_state().fees.get_utxos_maximum,
-//@ before "let fee = std::cmp::min("
+//@ after "let s: &State = vp_state(); {"
 //@| proof {
 //@|     let a = (stats.ins_total / 10) as int; let b = s.fees.get_utxos_cycles_per_ten_instructions as int;
 //@|     assert(a * b <= 0x1fff_ffff_ffff_ffff * 0x1_0000_0000_0000_0000) by(nonlinear_arith) requires 0 <= a <= 0x1fff_ffff_ffff_ffff, 0 <= b <= 0x1_0000_0000_0000_0000;
@@ -315,7 +315,7 @@ fn get_block_headers_internal(request: &GetBlockHeadersRequest2) -> (r: Result<(
 //@|     r.is_ok() ==> exists|ins: u64| final(vp_rt).accepted == old(vp_rt).accepted + global_state().fees.get_block_headers_base
 //@|         + variable_fee(ins, global_state().fees.get_block_headers_cycles_per_ten_instructions, global_state().fees.get_block_headers_base, global_state().fees.get_block_headers_maximum),
 //@|     final(vp_rt).accepted <= old(vp_rt).accepted + global_state().fees.get_block_headers_maximum,
-//@ before "let fee = std::cmp::min("
+//@ after "let s: &State = vp_state(); {"
 //@| proof {
 //@|     let a = (stats.ins_total / 10) as int; let b = s.fees.get_block_headers_cycles_per_ten_instructions as int;
 //@|     assert(a * b <= 0x1fff_ffff_ffff_ffff * 0x1_0000_0000_0000_0000) by(nonlinear_arith) requires 0 <= a <= 0x1fff_ffff_ffff_ffff, 0 <= b <= 0x1_0000_0000_0000_0000;
